@@ -392,6 +392,70 @@ func c17(c *Ctx) {
 			c.ValueIs(st, st.Val, "done-from-caller", ParamV("done"))
 		}
 	})
+	c.Ob("stream-quota-signal", "R12", "client: every change of the stream quota (taken by a new stream, returned by a closing stream, raised by SETTINGS) is followed, on every path on which quota is left positive and someone is waiting, by a wake-up on streamsQuotaAvailable (non-blocking token, or close-and-replace broadcast); a waiter registers itself before sleeping on that channel", 3, func() {
+		fSQ := c.field(tr, "http2Client", "streamQuota")
+		fWS := c.field(tr, "http2Client", "waitingStreams")
+		fAv := c.field(tr, "http2Client", "streamsQuotaAvailable")
+		isWake := func(in ssa.Instruction) bool {
+			switch x := in.(type) {
+			case *ssa.Select:
+				for _, st := range x.States {
+					if st.Dir == types.SendOnly && FieldLoad(fAv)(st.Chan) {
+						return !x.Blocking
+					}
+				}
+			case *ssa.Call:
+				return BuiltinCall("close")(&x.Call) && FieldLoad(fAv)(x.Call.Args[0])
+			}
+			return false
+		}
+		n := 0
+		for _, f := range c.scope(tr) {
+			for _, st := range storesToField(f, fSQ) {
+				if freshReceiver(st.Addr.(*ssa.FieldAddr).X) {
+					continue
+				}
+				n++
+				c.inst("stream quota changed <- " + c.siteStr(st))
+				q := pathQuery{Fn: f, Starts: []ssa.Instruction{st}, Barrier: isWake, Target: isReturn,
+					EdgeBlock: func(from, to *ssa.BasicBlock) bool {
+						fs := edgeFacts(from, to)
+						_, a := hasFact(fs, CmpInt(FieldLoad(fSQ), token.LEQ, 0))
+						_, b := hasFact(fs, CmpInt(FieldLoad(fWS), token.LEQ, 0))
+						_, d := hasFact(fs, CmpInt(AnyV, token.LEQ, 0)) // delta <= 0 in the SETTINGS handler
+						if d {
+							// only a test on the amount just added counts
+							d = false
+							for _, fc := range fs {
+								if fc.Kind == "cmp" && !FieldLoad(fSQ)(fc.X) && !FieldLoad(fWS)(fc.X) {
+									if b, ok := st.Val.(*ssa.BinOp); ok && (fc.X == b.Y || sameValue(fc.X, b.Y)) && CmpInt(AnyV, token.LEQ, 0)(fc) {
+										d = true
+									}
+								}
+							}
+						}
+						// a transport that no longer accepts streams (draining / closed) releases its waiters through goAway / ctx, not through quota
+						_, e1 := hasFact(fs, Cmp(FieldLoad(c.field(tr, "http2Client", "state")), token.EQL, ConstOfObj(c.konst(tr, "draining"))))
+						_, e2 := hasFact(fs, IsNil(FieldLoad(c.field(tr, "http2Client", "activeStreams"))))
+						return a || b || d || e1 || e2
+					}}
+				c.MustPass("quota-change-wakes-waiters", q, st)
+			}
+		}
+		c.Expect(n == 3, nil, nil, "three-quota-change-sites", "expected three stream-quota change sites (take, return, SETTINGS)")
+		// waiter registration precedes the sleep
+		ns := c.fn(tr, "http2Client.NewStream")
+		okReg := false
+		for _, g := range ns.AnonFuncs {
+			for _, st := range storesToField(g, fWS) {
+				if BinOpV(token.ADD, FieldLoad(fWS), ConstInt(1))(st.Val) {
+					okReg = true
+					c.MustFact(st, "registers-only-when-out-of-quota", CmpInt(FieldLoad(fSQ), token.LEQ, 0))
+				}
+			}
+		}
+		c.Expect(okReg, nil, ns, "waiter-registers", "a NewStream call that has to wait does not register itself as waiting")
+	})
 	c.Ob("replenish-on-write", "R3", "the data step replenishes the stream's write quota with the size it is about to write, before the write, on the path of every DATA write", 2, func() {
 		pd := c.fn(tr, "loopyWriter.processData")
 		wd := one(c, "writeData call", callsIn(pd, Callee(tr, "framer.writeData")))
